@@ -241,6 +241,9 @@ def run_correspondence(ck, consts):
             groups.setdefault((c["proto"], sig), []).append(c)
         for (proto, sig), cs in sorted(groups.items())[:12]:
             worst = min(cs, key=lambda c: (c.get("step", 0), c["nrows"], len(json.dumps(c["body"]))))
+            if worst.get("ttl_multi"):
+                sig += "; the body hands a label buffer with a __ttl_days__ label in front of other labels to onEntries more than once (%d of the %d cases with this signature do)" % (
+                    sum(1 for c in cs if c.get("ttl_multi")), len(cs))
             ck.violation({"property": PID, "kind": "decoded rows are not one faithful row per submitted entry", "signature": sig,
                           "proto": proto, "class": worst["class"], "case": small(worst), "history": history_of(worst),
                           "history_note": ("step %d of a history: the bodies of 'history' decoded one after another in one process" % worst["step"]) if worst.get("hist") else
@@ -292,6 +295,14 @@ def run_correspondence(ck, consts):
                              "with_shared_announcement_cache": sum(1 for v in hists.values() if v[0].get("cache") == "shared"),
                              "mixed_protocols": sum(1 for v in hists.values() if len({x["proto"] for x in v}) > 1)}
     ck.obligation("histories (2..5 bodies decoded one after another in one process) are part of the run: %d histories" % nh, nh > 0)
+    tm = {}
+    for c in cases:
+        if c.get("ttl_multi"):
+            tm[c["proto"]] = tm.get(c["proto"], 0) + 1
+    ck.extra["bodies_with_ttl_label_in_front_of_other_labels_on_a_buffer_passed_to_onEntries_twice"] = tm
+    ck.extra["bodies_with_a_ttl_label"] = sum(1 for c in cases if "__ttl_days__" in json.dumps(c["body"]))
+    ck.obligation("label buffers handed to onEntries more than once carry a __ttl_days__ label in a non-final position (remote write across the flush limit: %d bodies, Influx lines with several numeric fields: %d bodies)"
+                  % (tm.get("prw", 0), tm.get("influx", 0)), tm.get("prw", 0) > 0 and tm.get("influx", 0) > 0)
     ck.obligation("both flush thresholds are crossed by generated bodies (%d bytes: %d bodies, %d points: %d bodies)" % (consts["THRESHOLD"], crossed_mib, consts["FLUSH_LIMIT"], crossed_1000),
                   crossed_mib > 0 and crossed_1000 > 0)
     ck.add_samples([small(c) for c in cases if c["nrows"] >= 2 and case_weight(c) < 4000][:3])
